@@ -257,13 +257,31 @@ def _(self, order_package: Ref("BaseOrderPackage"), http_session: Opt(Ref("Sessi
 
 
 # ----------------------------------------------------------------------------- replace
+schema("BaseOrder", replaced_by=Opt(Ref("BaseOrder")))  # GHOST (history variable, written only by the assumed contract of Trade.create_order_replacement): the order created to replace this one
+schema("BaseFlumine", clients=Ref("Clients"))
+schema("Clients", _clients=ListOf(Ref("BaseClient")))
+
+
+def default_client(market):
+    """Clients.get_default(): the first client registered with the framework"""
+    return market.flumine.clients._clients[0]
+
+
 @contract("flumine/order/trade.py::Trade.create_order_replacement", tags=["C12-assumed"], fresh_result=True)
 def _(self, order: Ref("BaseOrder"), new_price: Opt(REAL), size: Opt(REAL), date_time_created: REAL) -> Ref("BetfairOrder"):
-    trusted("order construction is C19/C10's subject; assumed: a NEW BetfairOrder (with its own new SimulatedOrder, Responses and "
-            "update data) of this trade for the same client, appended to trade.orders, never placed (status None)")
+    trusted("order construction is C19/C10's subject; assumed (read from the code): a NEW BetfairOrder (with its own new SimulatedOrder, "
+            "Responses, update data and a new LimitOrder(price=new_price, size=size)) of this trade, bound to the client of the replaced "
+            "order (update_client(order.client)), appended to trade.orders, never placed (status None); the ghost field "
+            "order.replaced_by records the new order")
+    # C10 (from the statement, an OBLIGATION at every call site): a trade never completes while an order of it is live - so a trade
+    # that gets a further order must not have been completed; the handler has to hold the trade open (with trade:) across both legs
+    requires("a_completed_trade_gets_no_further_order", self.status != TradeStatus.COMPLETE)
     modifies_list(self.orders)
+    modifies(order, "replaced_by")
     ensures("new_order_of_this_trade", result.trade == self and result.client == order.client and result.status is None and not result.complete)
-    ensures("own_new_parts", fresh(result.simulated) and fresh(result.responses) and fresh(result.update_data) and result.simulated.order == result)
+    ensures("size_and_price_as_given", result.order_type.size == size and result.order_type.price == new_price)
+    ensures("recorded_as_the_replacement", order.replaced_by == result)
+    ensures("own_new_parts", fresh(result.simulated) and fresh(result.responses) and fresh(result.update_data) and fresh(result.order_type) and result.simulated.order == result)
     ensures("appended_to_the_trade", len(self.orders) == old(len(self.orders)) + 1 and self.orders[len(self.orders) - 1] == result
             and forall(lambda j: self.orders[j] == old(self.orders[j]), 0, old(len(self.orders))))
 
@@ -271,9 +289,13 @@ def _(self, order: Ref("BaseOrder"), new_price: Opt(REAL), size: Opt(REAL), date
 @contract("flumine/markets/market.py::Market.place_order", tags=["C12-assumed"])
 def _(self, order: Ref("BaseOrder"), market_version: Opt(INT) = None, execute: BOOL = True, force: BOOL = False, client: Opt(Ref("BaseClient")) = None) -> BOOL:
     trusted("Transaction.place_order is C02/C15's subject; assumed for the call with execute=False (registration of a replacement order "
-            "in the blotter): the order becomes PENDING, only this order, the blotter views and its trade's notes are written, no "
-            "package is created, nothing is charged, and the call does not raise (the order id is new: C19)")
+            "in the blotter): the order is (re)bound to the transaction's client - the `client` argument, or the framework's default "
+            "client when none is given (Market.transaction / Transaction.place_order: order.update_client(self._client)) - and becomes "
+            "PENDING; only this order, the blotter views and its trade's notes are written, no package is created, nothing is charged, "
+            "and the call does not raise (the order id is new: C19)")
     requires("registration_only", not execute)
+    modifies(order, "client")
+    modifies(order, "_simulated")
     modifies(order, "status")
     modifies(order, "complete")
     modifies(order, "date_time_status_update")
@@ -287,19 +309,51 @@ def _(self, order: Ref("BaseOrder"), market_version: Opt(INT) = None, execute: B
     modifies_all_lists_of(Ref("BaseOrder"))
     modifies_all_maps()
     ensures("pending", order.status == OrderStatus.PENDING and not order.complete)
+    ensures("filed_under_the_given_client_or_the_default", order.client == (client if client is not None else default_client(self)))
 
 
-def sim_replace_frame_ok(op):
-    return True
+def cancel_ok(o, book):
+    """the simulated exchange accepts the cancel leg (SimulatedOrder.cancel, C04): open market, limit order"""
+    return book.status == "OPEN" and is_limit_so(o.simulated)
 
 
-@contract("flumine/execution/simulatedexecution.py::SimulatedExecution.execute_replace", tags=["C12-wip"])  # discharges when checked alone (P7 known findings confirmed); the charged clause times out in loaded full runs
+def replaced_by_new_order(o):
+    """o (an order of the package whose cancel leg succeeded) has a replacement: a new order of the same trade"""
+    return o.replaced_by is not None and fresh(o.replaced_by) and o.replaced_by.trade == o.trade
+
+
+def replacement_same_client(o):
+    """C18 / C08: the replacement is filed under the SAME client as the order it replaces"""
+    return o.replaced_by is not None and o.replaced_by.client == old(o.client)
+
+
+def replacement_size_is_size_cancelled(o):
+    """C01: the size of the replacement is exactly the size cancelled from o - what was still unmatched, never more"""
+    return (o.replaced_by is not None and o.replaced_by.order_type.size == o.simulated.size_cancelled - old(o.simulated.size_cancelled)
+            and implies(old(is_limit_so(o.simulated)), o.replaced_by.order_type.size <= old(R(o.simulated))))
+
+
+def same_sim_figures(so):
+    return (so.size_cancelled == old(so.size_cancelled) and so.size_matched == old(so.size_matched)
+            and so.size_lapsed == old(so.size_lapsed) and so.size_voided == old(so.size_voided))
+
+
+def sims_owned():
+    """representation invariant (BetfairOrder.__init__: self.simulated = SimulatedOrder(self)): a simulated order belongs to one order"""
+    return forall_ref(lambda o: o.simulated.order == o, "BaseOrder")
+
+
+@contract("flumine/execution/simulatedexecution.py::SimulatedExecution.execute_replace", tags=["C12", "C18"])
 def _(self, order_package: Ref("BaseOrderPackage"), http_session: Opt(Ref("Session"))):
     requires("replace_package", order_package.package_type == OrderPackageType.REPLACE)
     requires("market_of_the_package_exists", market_known(self, order_package) and book_of(self, order_package) is not None)
     requires("no_response_being_applied", trades_not_pending(order_package._orders))
     requires("controls_distinct", distinct_controls(order_package.client))
     requires("simulated_orders_invariant", forall_ref(lambda so: sim_cancel_pre(so), "SimulatedOrder"))  # C04 class invariant
+    requires("package_orders_distinct", distinct_list(pkg(order_package)))
+    requires("simulated_order_belongs_to_its_order", sims_owned())
+    # Transaction.replace_order refuses an order of another client; the package is built from that transaction's orders with its client
+    requires("orders_of_the_package_belong_to_its_client", forall(lambda j: pkg(order_package)[j].client == order_package.client, 0, len(pkg(order_package))))
     modifies(self, "_bet_id")
     modifies_all("BaseOrder.status")
     modifies_all("BaseOrder.complete")
@@ -310,6 +364,8 @@ def _(self, order_package: Ref("BaseOrderPackage"), http_session: Opt(Ref("Sessi
     modifies_all("BaseOrder.market_version")
     modifies_all("BaseOrder.async_")
     modifies_all("BaseOrder.market_notes")
+    modifies_all("BaseOrder.replaced_by")
+    modifies_all("BaseOrder.client")  # only the NEW replacement orders are (re)bound; for existing orders see ensures orders_keep_their_client (an Opt field: the raw frame compares payloads of None)
     modifies_all("UpdateData.size_reduction")
     modifies_all("UpdateData.new_price")
     modifies_all("Trade.status")
@@ -344,6 +400,18 @@ def _(self, order_package: Ref("BaseOrderPackage"), http_session: Opt(Ref("Sessi
         lambda c: c.transaction_count == old(c.transaction_count) and c.current_transaction_count == old(c.current_transaction_count)
         and c.failed_transaction_count == old(c.failed_transaction_count) and c.current_failed_transaction_count == old(c.current_failed_transaction_count),
         "MaxTransactionCount"))
+    # stepping stone for the charged clause: the handler moves no order in or out of VIOLATION, so len(order_package) is still the
+    # number of orders the package had at entry (the filter of BaseOrderPackage.orders selects the same elements)
+    invariant(0, "no_order_enters_or_leaves_violation", forall_ref(lambda o: (o.status == OrderStatus.VIOLATION) == (old(o.status) == OrderStatus.VIOLATION), "BaseOrder"))
+    invariant(0, "orders_keep_their_client", forall_ref(lambda o: o.client == old(o.client) and o._simulated == old(o._simulated), "BaseOrder"))
+    invariant(0, "replaced_so_far_by_new_orders", forall(
+        lambda j: implies(old(cancel_ok(pkg_at(order_package, j), book_of(self, order_package))), replaced_by_new_order(old(pkg(order_package))[j])), 0, _i0))
+    invariant(0, "replacements_so_far_same_client", forall(
+        lambda j: implies(old(cancel_ok(pkg_at(order_package, j), book_of(self, order_package))), replacement_same_client(old(pkg(order_package))[j])), 0, _i0))
+    invariant(0, "replacements_so_far_size_cancelled", forall(
+        lambda j: implies(old(cancel_ok(pkg_at(order_package, j), book_of(self, order_package))), replacement_size_is_size_cancelled(old(pkg(order_package))[j])), 0, _i0))
+    invariant(0, "orders_not_yet_answered_keep_their_simulated_figures", forall(
+        lambda j: same_sim_figures(old(pkg(order_package))[j].simulated), _i0, len(old(pkg(order_package)))))
     ensures("every_order_can_progress", forall(lambda j: can_progress(old(pkg(order_package))[j].status), 0, len(old(pkg(order_package)))))
     ensures("other_orders_untouched", forall_ref(lambda o: implies(not in_list12(old(pkg(order_package)), o, len(old(pkg(order_package)))), o.status == old(o.status)), "BaseOrder"))
     ensures("no_trade_left_pending", forall_ref(lambda t: implies(old(t.status) != TradeStatus.PENDING, t.status != TradeStatus.PENDING), "Trade"))
@@ -352,3 +420,16 @@ def _(self, order_package: Ref("BaseOrderPackage"), http_session: Opt(Ref("Sessi
     ensures("charged_the_instructions_submitted_plus_failures", charged_exactly(
         order_package.client, old(len(live_pkg(order_package))),
         sum_(lambda j: (1 if old(sim_cancel_fails(pkg_at(order_package, j), book_of(self, order_package))) else 0), 0, old(len(live_pkg(order_package))))))
+    # C18 / C08: orders stay with their client; C01 + C18: every order whose cancel leg succeeded is replaced by a new order of the same
+    # client whose size is the size cancelled from it (stated outside finding P7: when an order of the package completed in the meantime
+    # the instructions are mis-paired and the last orders are not answered at all - recorded under every_order_can_progress)
+    ensures("orders_keep_their_client", forall_ref(lambda o: o.client == old(o.client), "BaseOrder"))
+    ensures("cancelled_orders_are_replaced_by_new_orders", implies(old(nothing_completed(order_package)), forall(
+        lambda j: implies(old(cancel_ok(pkg_at(order_package, j), book_of(self, order_package))), replaced_by_new_order(old(pkg(order_package))[j])),
+        0, len(old(pkg(order_package))))))
+    ensures("replacement_is_filed_under_the_client_of_the_order_it_replaces", implies(old(nothing_completed(order_package)), forall(
+        lambda j: implies(old(cancel_ok(pkg_at(order_package, j), book_of(self, order_package))), replacement_same_client(old(pkg(order_package))[j])),
+        0, len(old(pkg(order_package))))))
+    ensures("replacement_size_is_the_size_cancelled_from_the_original", implies(old(nothing_completed(order_package)), forall(
+        lambda j: implies(old(cancel_ok(pkg_at(order_package, j), book_of(self, order_package))), replacement_size_is_size_cancelled(old(pkg(order_package))[j])),
+        0, len(old(pkg(order_package))))))
